@@ -1,7 +1,7 @@
 (* C15 -- property theorems only.  Each is closed by `exact <lemma>`; axioms are
    printed by the audit step of bin/check (Print Assumptions per theorem). *)
 From Coq Require Import NArith ZArith List Bool.
-From SV Require Import C15.Utf8 C15.Float C15.Quote C15.Value C15.ProofsQuote C15.ProofsScan C15.ProofsHeap C15.ProofsValue C15.Spec C15.ProofsSpec C15.Bounded.
+From SV Require Import C15.Utf8 C15.Float C15.Quote C15.Value C15.ProofsQuote C15.ProofsScan C15.ProofsHeap C15.ProofsValue C15.Spec C15.ProofsSpec C15.Bounded C15.ProofsAgree.
 Import ListNotations.
 Open Scope N_scope.
 
@@ -64,22 +64,36 @@ Theorem quote_denotes : forall (s : list N) (b : bool) rest,
 Proof. exact (quote_denotes_lemma is_print is_print_not_newline). Qed.
 End Quoting.
 
-(* FULL STATEMENT: for every well-formed UTF-8 source text, the scanner +
-   unquote (two passes, quote tracking, raw / bytes / triple-quoted forms, all
-   escapes, all error cases) read the same literal with the same value and the
-   same remaining input as the specification's single-pass reader, and reject
-   exactly what it rejects.
-   PROVED (`_bounded`): the statement for EVERY source text of length <= 6 over
-   the 14 characters that matter to literal syntax (both quotes, backslash, r, b,
-   x, the digits 0 4 7, a, LF, CR and the two bytes of a non-ASCII character):
-   8,108,731 texts enumerated completely inside Coq (all_upto is proved sound).
-   This covers every interaction of prefixes, delimiters (incl. triple quotes),
-   backslash skipping, line endings, simple / octal / hex escapes and their
-   error cases that fits in six characters.  MISSING: longer texts and other
-   characters (the 4- and 8-digit Unicode escapes in particular) are covered
-   only by quote_denotes + scan_quote_* above (for printed text) and by the
-   correspondence check on generated literals (three-way: real scanner, model,
-   specification). *)
+(* THE MODEL AGREES WITH THE SPECIFICATION ON EVERY SOURCE TEXT (unbounded).
+   For EVERY well-formed UTF-8 source text src - of any length, over any
+   characters - the implementation model (nextToken's r / b / rb prefix dispatch,
+   scanString's single- and triple-quoted loops with readRune's CR / CR LF
+   handling and generic backslash skipping, then unquote re-reading the token:
+   one-character escapes, octal escapes with both limits, \xHH, \uXXXX,
+   \UXXXXXXXX with the surrogate and range checks, raw literals, escaped line
+   breaks, every error exit) returns the SAME observation as the specification's
+   independent single-pass reader (Spec.v): the same token extent (remaining
+   input), the same decoded value, the same string / bytes kind, and an error on
+   exactly the same texts (both sides have one error class).
+   Proof (ProofsAgree*.v): induction over the source with the specification's
+   single pass as the reference; scanG (scan1 and scan3 as one loop) stops at the
+   first unescaped closing delimiter, the token text is the source with CR / CR LF
+   normalised, and unq_loop on the delimited body processes each escape exactly
+   as s_items does (hexadecimal and octal look-ahead across the closing quote
+   included); unquote's prefix / delimiter analysis recovers exactly that body.
+   The hypothesis is the specification's domain (Spec.v): on ill-formed UTF-8 the
+   scanner substitutes U+FFFD for the offending byte and the statement is false
+   (scan_agreement_needs_wellformed_source below). *)
+Theorem scan_agrees_with_spec : forall src,
+  valid_utf8 src = true -> model_scan src = spec_scan src.
+Proof. exact scan_agrees_with_spec_lemma. Qed.
+
+(* The same statement established independently of the induction, by complete
+   enumeration inside Coq: EVERY source text of length <= 6 over the 14
+   characters that matter to literal syntax (both quotes, backslash, r, b, x,
+   the digits 0 4 7, a, LF, CR and the two bytes of a non-ASCII character):
+   8,108,731 texts (all_upto is proved sound).  Kept as a cross-check of the
+   unbounded theorem above (it is an instance of it). *)
 Theorem scan_agrees_with_spec_bounded : forall src,
   (length src <= bound)%nat -> Forall (fun c => In c alphabet) src ->
   valid_utf8 src = true -> model_scan src = spec_scan src.
@@ -218,3 +232,37 @@ Example bounded_premises :
   (length [114; 98; 39; 92; 39; 39] <= bound)%nat /\ Forall (fun c => In c alphabet) [114; 98; 39; 92; 39; 39]
   /\ valid_utf8 [114; 98; 39; 92; 39; 39] = true /\ model_scan [114; 98; 39; 92; 39; 39] = SOk true [92; 39] [].
 Proof. split; [cbn; auto|]. split; [repeat (constructor; [cbn; tauto|])|]; [constructor|]. split; reflexivity. Qed.
+(* premises and conclusion of the unbounded agreement theorem on concrete texts.
+   DQ a \n \x41 \101 \0 \u00e9 \U0001F600 \Q \LF e-acute DQ + x   (DQ = double quote):
+   simple, hex, octal (3 and 1 digits), 4- and 8-digit Unicode escapes, escaped
+   quote, escaped line break, a raw non-ASCII character *)
+Definition escapes_text : list N :=
+  [34; 97; 92; 110; 92; 120; 52; 49; 92; 49; 48; 49; 92; 48; 92; 117; 48; 48; 101; 57;
+   92; 85; 48; 48; 48; 49; 70; 54; 48; 48; 92; 39; 92; 10; 195; 169; 34; 32; 43; 32; 120].
+Example agreement_escapes :
+  valid_utf8 escapes_text = true
+  /\ model_scan escapes_text = SOk false [97; 10; 65; 65; 0; 195; 169; 240; 159; 152; 128; 39; 195; 169] [32; 43; 32; 120]
+  /\ spec_scan escapes_text = model_scan escapes_text.
+Proof. repeat split; vm_compute; reflexivity. Qed.
+(* r b Q Q Q a \ Q b Q Q c CR LF \ x 4 1 Q Q Q [0]   (Q = single quote): a triple-quoted raw
+   bytes literal (backslashes kept, CR LF read as LF, two quotes inside the body) *)
+Definition raw_bytes_text : list N :=
+  [114; 98; 39; 39; 39; 97; 92; 39; 98; 39; 39; 99; 13; 10; 92; 120; 52; 49; 39; 39; 39; 91; 48; 93].
+Example agreement_triple_raw_bytes :
+  valid_utf8 raw_bytes_text = true
+  /\ model_scan raw_bytes_text = SOk true [97; 92; 39; 98; 39; 39; 99; 10; 92; 120; 52; 49] [91; 48; 93]
+  /\ spec_scan raw_bytes_text = model_scan raw_bytes_text.
+Proof. repeat split; vm_compute; reflexivity. Qed.
+(* DQ \ud800 DQ (a surrogate), DQ \400 DQ (octal above 255), Q a LF (line break in a
+   single-quoted literal), DQ \x4 DQ (truncated), DQ abc (no closing quote): rejected by both *)
+Example agreement_errors :
+  Forall (fun src => valid_utf8 src = true /\ model_scan src = SErr /\ spec_scan src = SErr)
+    [[34; 92; 117; 100; 56; 48; 48; 34]; [34; 92; 52; 48; 48; 34]; [39; 97; 10]; [34; 92; 120; 52; 34]; [34; 97; 98; 99]].
+Proof. repeat constructor. Qed.
+(* the hypothesis cannot be dropped: on the ill-formed text DQ 0xFF DQ the scanner writes
+   U+FFFD into the token, the specification (whose domain is well-formed UTF-8) keeps the byte *)
+Example scan_agreement_needs_wellformed_source :
+  valid_utf8 [34; 255; 34] = false
+  /\ model_scan [34; 255; 34] = SOk false [0xEF; 0xBF; 0xBD] []
+  /\ spec_scan [34; 255; 34] = SOk false [255] [].
+Proof. repeat split. Qed.
